@@ -2720,7 +2720,7 @@ def remove_redundant_chain_casts(source: str) -> str:
         if func_outer == "iter" and len(args) >= 1:
             yield node, node.args[0]
         if func_outer == "iter" and not args:
-            yield node, ast.Call(func=ast.Name(id="iter"), args=[], keywords=[])
+            yield node, ast.Call(func=ast.Name(id="iter"), args=[ast.Tuple(elts=[])], keywords=[])
         elts = [ast.Starred(value=arg) for arg in args]
         if func_outer == "set" and elts:
             yield node, ast.Set(elts=elts)
